@@ -63,6 +63,13 @@ def chain(run, p):
             for tm in (['HH', 'mm'], ['HH', 'mm', 'ss'], ['HH', 'mm', 'ss', 'SSS'], ['HH', ':', 'mm', ':', 'ss', '.', 'S']):
                 for sep in (' ', 'T'):
                     cases.append(list(perm) + [sep] + tm)
+    if run.tier == 'thorough':
+        # deeper: every ordered triple of fields from three different families, joined by one separator throughout
+        for a, b, c in itertools.permutations(TOKENS, 3):
+            if len({FAMILY[a], FAMILY[b], FAMILY[c]}) < 3:
+                continue
+            for s in SEPS:
+                cases.append([a, s, b, s, c])
     cases.append(['yyyy', '-', 'MM', '-', 'dd', 'T', 'HH', ':', 'mm', ':', 'ss', '.', 'SSS'])
     cases.append(['dd', '/', 'MM', '/', 'yyyy', ' ', 'HH', ':', 'mm', ':', 'ss', '.', 'SS'])
     bad = []
